@@ -68,18 +68,35 @@ m("c19_alloc_in_utf8_error", ["C19"], L, "            Err(_) => Err(Error::Token
 # C20
 m("c20_rescan_after_fold", ["C20"], L, "                simd::match_header_value_vectored(bytes);\n                let b = next!(bytes);\n\n                //found_ctl", "                simd::match_header_value_vectored(bytes);\n                if config.allow_obsolete_multiline_headers { let mut again = Bytes::new(bytes.as_ref()); let _ = &mut again; let whole = unsafe { core::slice::from_raw_parts(bytes.start(), bytes.pos()) }; let mut re = Bytes::new(whole); simd::match_header_value_vectored(&mut re); }\n                let b = next!(bytes);\n\n                //found_ctl")
 
+# C04 (b): lifetime laundering — two sites that each look fine alone
+def multi(name, props, edits, note=""):
+    M.append(dict(name=name, props=props, edits=edits, note=note))
+multi("c04_lifetime_laundering", ["C04"], [
+    ("src/iter.rs", "    pub fn new(slice: &'a [u8]) -> Bytes<'a> {", "    pub fn new<'x>(slice: &'x [u8]) -> Bytes<'a> {"),
+    ("src/lib.rs", "    fn parse_with_config_and_uninit_headers(\n        &mut self,\n        buf: &'b [u8],\n        config: &ParserConfig,\n        mut headers: &'h mut [MaybeUninit<Header<'b>>],\n    ) -> Result<usize> {\n        let orig_len = buf.len();\n        let mut bytes = Bytes::new(buf);\n        complete!(skip_empty_lines(&mut bytes));\n        let method", "    fn parse_with_config_and_uninit_headers(\n        &mut self,\n        buf: &[u8],\n        config: &ParserConfig,\n        mut headers: &'h mut [MaybeUninit<Header<'b>>],\n    ) -> Result<usize> {\n        let orig_len = buf.len();\n        let mut bytes = Bytes::new(buf);\n        complete!(skip_empty_lines(&mut bytes));\n        let method"),
+    ("src/lib.rs", "    fn parse_with_config(&mut self, buf: &'b [u8], config: &ParserConfig) -> Result<usize> {\n        let headers = mem::take(&mut self.headers);\n\n        /* SAFETY", "    fn parse_with_config(&mut self, buf: &[u8], config: &ParserConfig) -> Result<usize> {\n        let headers = mem::take(&mut self.headers);\n\n        /* SAFETY"),
+    ("src/lib.rs", "    pub fn parse(&mut self, buf: &'b [u8]) -> Result<usize> {\n        self.parse_with_config(buf, &Default::default())", "    pub fn parse(&mut self, buf: &[u8]) -> Result<usize> {\n        self.parse_with_config(buf, &Default::default())"),
+], note="Bytes::new loses its input lifetime and Request::parse's buf is elided: fields no longer tied to the buffer")
+
 def main():
     out = "/verif/mutants"
     os.makedirs(out, exist_ok=True)
     index = []
     assert subprocess.run(["git","-C","/repo","status","--porcelain","--untracked-files=no"],capture_output=True,text=True).stdout.strip()=="" , "repo dirty"
     for x in M:
-        p = os.path.join("/repo", x["file"])
-        s = open(p).read()
-        if s.count(x["old"]) != x["count"]:
-            print("SKIP", x["name"], "old text found", s.count(x["old"]), "times")
+        edits = x.get("edits") or [(x["file"], x["old"], x["new"])]
+        bad = False
+        for (f, old, new) in edits:
+            p = os.path.join("/repo", f)
+            s = open(p).read()
+            if s.count(old) != 1:
+                print("SKIP", x["name"], "old text found", s.count(old), "times in", f)
+                bad = True
+                break
+            open(p, "w").write(s.replace(old, new))
+        if bad:
+            subprocess.run(["git","-C","/repo","checkout","--","."],check=True)
             continue
-        open(p, "w").write(s.replace(x["old"], x["new"]))
         d = subprocess.run(["git","-C","/repo","diff"],capture_output=True,text=True).stdout
         open(os.path.join(out, x["name"]+".diff"),"w").write(d)
         subprocess.run(["git","-C","/repo","checkout","--","."],check=True)
